@@ -165,6 +165,8 @@ func (c13) Exec(sc *sim.Scenario, env *sim.Env) *sim.Violation {
 	reals := make([]*realDev, ndev)
 	for i := range devs {
 		devs[i] = NewSimMem(env, i, sim.Mix(sc.Seed^uint64(i+1)))
+		// e.g. a small register block mirrored over a larger window reports its own size
+		devs[i].SizeV = []uint32{0, 16, 0x100, 0x10000, 1}[sim.Mix(sc.Seed^uint64(i)*77)%5]
 	}
 	nreal := int(sc.C("realmem"))
 	for i := 0; i < nreal && i < ndev; i++ {
